@@ -189,13 +189,13 @@ def lens_quick():
 
 
 def lens_thorough():
-    """every n <= 200, plus structured larger lengths whose largest prime factor stays <= 131 (a Rader or
+    """every n <= 128, plus structured larger lengths whose largest prime factor stays small (a Rader or
     Bluestein stage over a prime above ~260 does not decide within the cap: measured 'unknown' after 900 s
-    for n = 419, 433, 505 under full load)"""
-    ns = set(range(0, 201))
-    ns |= {216, 240, 243, 250, 255, 256, 288, 320, 343, 360, 384, 400, 432, 480, 486, 500, 512, 576, 625, 640, 720, 729, 768, 1000, 1024}
-    ns |= {211, 223, 227, 229, 233, 239, 241, 251, 257, 263}
-    ns |= {289, 361, 17 * 19, 13 * 37, 2 * 127, 2 * 131, 3 * 101, 4 * 59, 6 * 43, 8 * 29, 11 * 31, 23 * 29}
+    for n = 419, 433, 505 under full load; n = 1024 needs 3-4 min per solver and a 95 MB query)"""
+    ns = set(range(0, 129))
+    ns |= {144, 160, 180, 192, 200, 216, 240, 243, 250, 256, 257, 263, 288, 289, 320, 343, 360, 361, 384, 400, 432, 480, 486, 500, 512}
+    ns |= {131, 137, 139, 149, 151, 157, 163, 167, 173, 179, 181, 191, 193, 197, 199, 2 * 127, 3 * 101, 4 * 59, 6 * 43, 8 * 29, 11 * 31, 17 * 19}
+    ns |= {625, 729, 768, 1000, 1024}
     return sorted(ns)
 
 
@@ -233,7 +233,7 @@ def check_c06(pid, tier, seed, only):
     if tier == "quick":
         ns = list(range(1, 65)) + [96, 100, 120, 128, 243, 256]
     else:
-        ns = sorted(set(range(1, 161)) | {180, 192, 200, 216, 240, 243, 250, 256, 288, 320, 343, 360, 384, 400, 480, 500, 512, 625, 640, 720, 729, 768, 1000, 1024})
+        ns = sorted(set(range(1, 129)) | {144, 160, 180, 192, 200, 216, 240, 243, 250, 256, 288, 320, 343, 360, 384, 400, 480, 500, 512, 729, 1024})
     specs = [f"c06:n={n}" for n in ns] + [f"c06:n={n}:planner=scalar" for n in (1, 2, 7, 30, 37, 59, 64)]
     res, _ = _simple_e1(pid, tier, seed, only, specs,
                         "one planner plans both directions (both planning orders): inv(fwd(x)) = n*x, fwd(inv(x)) = n*x, inv(x) = conj(fwd(conj x)) for all x; oracle-free, both sides are symbolic executions",
@@ -256,10 +256,10 @@ def check_c07(pid, tier, seed, only):
             for k in range(2, 9):
                 for d in ("fwd", "inv"):
                     specs.append(f"c07:n={n}:k={k}:dir={d}")
-        for n in list(range(33, 129)):
-            for k in (2, 3, 4):
+        for n in list(range(33, 97)):
+            for k in (2, 3):
                 specs.append(f"c07:n={n}:k={k}:dir={'fwd' if (n + k) % 2 else 'inv'}")
-        bound = "n in 1..32 x k in 2..8 x both directions; n in 33..128 x k in {2,3,4}"
+        bound = "n in 1..32 x k in 2..8 x both directions; n in 33..96 x k in {2,3}"
     # directly constructed transforms with k >= 2 (the planner never builds e.g. a Bluestein with a wide inner FFT)
     for t, k in [("BL(3,S8_0_0_0)", 3), ("BL(5,S16_0_0_0)", 2), ("BL(4,B11)", 2), ("MR(B2,B3)", 3), ("RA(S4_0_0_0)", 2), ("R4B(1,S3_3_0_3)", 2),
                  ("GT(B3,B4)", 2), ("RN(2.3,S1_0_0_0)", 3), ("MRS(B4,B4)", 2), ("R3B(1,S2_2_0_2)", 3), ("GTS(B3,B5)", 2)]:
@@ -272,7 +272,7 @@ def check_c07(pid, tier, seed, only):
 
 
 def check_c08_e1(pid, tier, seed, only, res=None):
-    ns = lens_quick() if tier == "quick" else sorted(set(range(0, 161)) | {180, 192, 200, 243, 255, 256, 257, 289, 320, 360, 384, 512})
+    ns = lens_quick() if tier == "quick" else sorted(set(range(0, 129)) | {144, 160, 180, 192, 200, 243, 255, 256, 257, 289, 320, 360, 384, 512})
     specs = [f"c08:n={n}:dir={d}" for n in ns for d in ("fwd", "inv")]
     return _simple_e1(pid, tier, seed, only, specs,
                       "scratch of exactly the advertised length, +1, +17 and x2, initial scratch and output contents symbolic: out == DFT(x) for all x AND all scratch/output contents, three explicit-scratch entry points",
@@ -330,7 +330,7 @@ def check_c10(pid, tier, seed, only):
 
 
 def check_c14(pid, tier, seed, only):
-    ns = (list(range(0, 41)) + [59, 64, 100, 127, 128]) if tier == "quick" else [n for n in lens_thorough() if n <= 512]
+    ns = (list(range(0, 41)) + [59, 64, 100, 127, 128]) if tier == "quick" else [n for n in lens_thorough() if n <= 400]
     specs = [f"c14:n={n}:dir={d}" for n in ns for d in ("fwd", "inv")]
     res, e1 = _simple_e1(pid, tier, seed, only, specs,
                          "element type Sym (16 bytes, neither f32 nor f64): every SIMD planner declines (native fact per obligation), FftPlanner::<Sym> falls back to portable code that only uses ring operations and from_f64/from_usize constants (anything else aborts the symbolic run) and equals the DFT exactly for all inputs",
